@@ -35,6 +35,7 @@ type rig struct {
 	panicSeen  map[*lib.Server]int
 	mu         sync.Mutex
 	ran        map[string]int  // cases run so far, by "op/fault"
+	gcWindows  int             // observations made with the collector switched off (this half)
 	lastOpen   int             // backend connections open at the end of the previous read case
 	attributed int             // open backend connections already reported under a fault class
 	used       map[string]bool // keys handed out so far
